@@ -41,6 +41,9 @@ func hasPrefixKey(keys []string) bool {
 // C01: indexed keys are found with their own value.
 
 func checkC01(c *Case, s *Stats) error {
+	if strings.HasPrefix(c.Gen, "scale:") {
+		return bigLeaves(s) // replay of the scale test
+	}
 	m := newModel(c)
 	fresh, st, err := c.load()
 	if err != nil {
@@ -434,6 +437,9 @@ func checkC13(c *Case, s *Stats) error {
 // C14: typed getters agree with Get.
 
 func checkC14(c *Case, s *Stats) error {
+	if strings.HasPrefix(c.Gen, "scale:") {
+		return hugeI64(s) // replay of the scale test
+	}
 	m := newModel(c)
 	fresh, st, err := c.load()
 	if err != nil {
